@@ -225,6 +225,42 @@ func runC12(p *core.Prog, r *core.Report) {
 				nested = fmt.Sprintf("%s (which locks) called at %s while holding %s", fnName(callee), p.Pos(in.Pos()), locksetString(held))
 			}
 		})
+		// every acquisition is released on every path to a return (explicitly, or by a defer registered after it)
+		{
+			leak := ""
+			sx.Instrs(fn, func(in ssa.Instruction) {
+				lc, ok := in.(*ssa.Call)
+				if !ok {
+					return
+				}
+				var unlockName string
+				switch sx.CalleeName(lc) {
+				case "(*sync.RWMutex).Lock":
+					unlockName = "(*sync.RWMutex).Unlock"
+				case "(*sync.RWMutex).RLock":
+					unlockName = "(*sync.RWMutex).RUnlock"
+				case "(*sync.Mutex).Lock":
+					unlockName = "(*sync.Mutex).Unlock"
+				default:
+					return
+				}
+				key := sx.MutexKey(sx.Args(lc)[0])
+				cut := sx.Cut{Instrs: map[ssa.Instruction]bool{}}
+				sx.Instrs(fn, func(i2 ssa.Instruction) {
+					if uc, ok := i2.(ssa.CallInstruction); ok && sx.CalleeName(uc) == unlockName && sx.MutexKey(sx.Args(uc)[0]) == key {
+						if _, isGo := uc.(*ssa.Go); !isGo {
+							cut.Instrs[i2] = true // a call, or a defer statement (runs at exit once registered)
+						}
+					}
+				})
+				for _, ret := range sx.Returns(fn) {
+					if sx.ReachInstr(fn, in, ret, cut) {
+						leak = fmt.Sprintf("the lock taken at %s is still held at the return at %s on some path: every later writer (and, after a writer queues, every reader) blocks forever", p.Pos(in.Pos()), p.Pos(ret.Pos()))
+					}
+				}
+			})
+			r.Check(leak == "", "C12-R3", "IPv4Filter."+name+": every acquisition is released on every path", p.FuncPos(fn), "each Lock/RLock is followed by its Unlock/RUnlock (or a defer of it) on every path to a return", leak)
+		}
 		r.Check(nested == "", "C12-R3", "IPv4Filter."+name+": no nested locking", p.FuncPos(fn), "no lock taken and no locking callee invoked while a lock is held", nested)
 
 		w := sx.Weights{Instr: func(in ssa.Instruction) sx.Range {
